@@ -197,6 +197,34 @@ type Variant struct {
 	Reader bool
 	Values bool
 	Run    func(in []byte, chunks []int, multi bool, rec *[]int) Outcome
+	// MultiOnly: the variant exists in multi-document mode only (channel delivery)
+	MultiOnly bool
+}
+
+// drainAny / drainGen render what a channel-mode call delivered AFTER the call has returned, so that
+// a document overwritten by a later one (Reuse left on in channel mode) shows.
+func drainAny(ch chan any) []string {
+	var docs []string
+	for {
+		select {
+		case v := <-ch:
+			docs = append(docs, lib.Render(v))
+		default:
+			return docs
+		}
+	}
+}
+
+func drainGen(ch chan gen.Node) []string {
+	var docs []string
+	for {
+		select {
+		case v := <-ch:
+			docs = append(docs, lib.Render(v))
+		default:
+			return docs
+		}
+	}
 }
 
 // Opts are the model flags of the variant: r = reader entry point, f = parser integer fast loop.
@@ -263,7 +291,7 @@ var variants = []Variant{
 			}
 			return Outcome{OK: true, Tree: renderSingle(v, in)}
 		})
-	}},
+	}, false},
 	{"oj.ParseReader", "oj", true, true, func(in []byte, chunks []int, multi bool, rec *[]int) Outcome {
 		return guard(func() Outcome {
 			var p oj.Parser
@@ -278,7 +306,7 @@ var variants = []Variant{
 			}
 			return Outcome{OK: true, Tree: renderSingle(v, in)}
 		})
-	}},
+	}, false},
 	{"oj.Validate", "oj", false, false, func(in []byte, _ []int, multi bool, _ *[]int) Outcome {
 		return guard(func() Outcome {
 			p := oj.Validator{OnlyOne: !multi}
@@ -287,7 +315,7 @@ var variants = []Variant{
 			}
 			return Outcome{OK: true}
 		})
-	}},
+	}, false},
 	{"oj.ValidateReader", "oj", true, false, func(in []byte, chunks []int, multi bool, rec *[]int) Outcome {
 		return guard(func() Outcome {
 			p := oj.Validator{OnlyOne: !multi}
@@ -296,7 +324,7 @@ var variants = []Variant{
 			}
 			return Outcome{OK: true}
 		})
-	}},
+	}, false},
 	{"oj.Tokenizer.Parse+Builder", "oj", false, true, func(in []byte, _ []int, multi bool, _ *[]int) Outcome {
 		return guard(func() Outcome {
 			var t oj.Tokenizer
@@ -308,7 +336,7 @@ var variants = []Variant{
 			}
 			return finishTrees(h.docs, multi, err)
 		})
-	}},
+	}, false},
 	{"oj.Tokenizer.Load+Builder", "oj", true, true, func(in []byte, chunks []int, multi bool, rec *[]int) Outcome {
 		return guard(func() Outcome {
 			var t oj.Tokenizer
@@ -320,7 +348,7 @@ var variants = []Variant{
 			}
 			return finishTrees(h.docs, multi, err)
 		})
-	}},
+	}, false},
 	{"gen.Parser.Parse", "gen", false, true, func(in []byte, _ []int, multi bool, _ *[]int) Outcome {
 		return guard(func() Outcome {
 			var p gen.Parser
@@ -335,7 +363,7 @@ var variants = []Variant{
 			}
 			return Outcome{OK: true, Tree: renderSingle(v, in)}
 		})
-	}},
+	}, false},
 	{"gen.Parser.ParseReader", "gen", true, true, func(in []byte, chunks []int, multi bool, rec *[]int) Outcome {
 		return guard(func() Outcome {
 			var p gen.Parser
@@ -349,6 +377,40 @@ var variants = []Variant{
 				return fromErr(err)
 			}
 			return Outcome{OK: true, Tree: renderSingle(v, in)}
+		})
+	}, false},
+	// channel delivery with Reuse requested: the parser must switch Reuse off (the receiver keeps the
+	// documents), in the []byte and in the reader copy of the option handling alike
+	{Name: "oj.Parse/chan", Table: "oj", Values: true, MultiOnly: true, Run: func(in []byte, _ []int, _ bool, _ *[]int) Outcome {
+		return guard(func() Outcome {
+			p := oj.Parser{Reuse: true}
+			ch := make(chan any, len(in)+2)
+			_, err := p.Parse(in, ch)
+			return finishTrees(drainAny(ch), true, err)
+		})
+	}},
+	{Name: "oj.ParseReader/chan", Table: "oj", Reader: true, Values: true, MultiOnly: true, Run: func(in []byte, chunks []int, _ bool, rec *[]int) Outcome {
+		return guard(func() Outcome {
+			p := oj.Parser{Reuse: true}
+			ch := make(chan any, len(in)+2)
+			_, err := p.ParseReader(rd(in, chunks, rec), ch)
+			return finishTrees(drainAny(ch), true, err)
+		})
+	}},
+	{Name: "gen.Parser.Parse/chan", Table: "gen", Values: true, MultiOnly: true, Run: func(in []byte, _ []int, _ bool, _ *[]int) Outcome {
+		return guard(func() Outcome {
+			p := gen.Parser{Reuse: true}
+			ch := make(chan gen.Node, len(in)+2)
+			_, err := p.Parse(in, ch)
+			return finishTrees(drainGen(ch), true, err)
+		})
+	}},
+	{Name: "gen.Parser.ParseReader/chan", Table: "gen", Reader: true, Values: true, MultiOnly: true, Run: func(in []byte, chunks []int, _ bool, rec *[]int) Outcome {
+		return guard(func() Outcome {
+			p := gen.Parser{Reuse: true}
+			ch := make(chan gen.Node, len(in)+2)
+			_, err := p.ParseReader(rd(in, chunks, rec), ch)
+			return finishTrees(drainGen(ch), true, err)
 		})
 	}},
 }
